@@ -11,6 +11,7 @@ import (
 	"os"
 	"os/exec"
 	"path/filepath"
+	"runtime/debug"
 	"strconv"
 	"strings"
 	"syscall"
@@ -74,6 +75,12 @@ func ChildMain(handlers map[string]Handler) bool {
 		prog.WriteAt([]byte(fmt.Sprintf("%012d", i)), 0)
 		r := call(h, buf)
 		fmt.Fprintf(res, "%d\t%s\n", i, strings.ReplaceAll(r, "\n", " "))
+		if strings.HasPrefix(r, "panic:") {
+			// a panic that escaped into the handler may have left locks held: the state of this process
+			// is no longer what production would have (it would have died); start a fresh one
+			res.Sync()
+			os.Exit(7)
+		}
 	}
 	prog.WriteAt([]byte("done        "), 0)
 	os.Exit(0)
@@ -83,7 +90,8 @@ func ChildMain(handlers map[string]Handler) bool {
 func call(h Handler, b []byte) (r string) {
 	defer func() {
 		if p := recover(); p != nil {
-			r = "panic: " + fmt.Sprint(p)
+			_, sig := Classify("panic: x\n\ngoroutine 1 [running]:\n"+string(debug.Stack()), false)
+			r = "panic: " + fmt.Sprint(p) + " || " + sig
 		}
 	}()
 	return h(b)
@@ -162,13 +170,29 @@ func Run(bin, entry, job, scratch string, inputs [][]byte, perInput time.Duratio
 		if p < start {
 			p = start // died before the first input was even logged: attribute to it conservatively
 		}
+		if hasResult(resPath, p) { // the child recorded a result for it and exited on purpose (escaped panic)
+			start = p + 1
+			continue
+		}
 		tailB, _ := os.ReadFile(errPath)
 		tail := string(tailB)
 		o := &out[p]
 		o.Died = true
 		o.Kind, o.Signature = Classify(tail, hang)
-		if len(tail) > 3000 {
-			tail = tail[:3000]
+		if hang {
+			for _, blk := range strings.Split(tail, "\n\n") {
+				if strings.Contains(blk, "isolate.call(") {
+					tail = blk
+					break
+				}
+			}
+		} else if i := strings.Index(tail, "fatal error:"); i >= 0 {
+			tail = tail[i:]
+		} else if i := strings.Index(tail, "panic:"); i >= 0 {
+			tail = tail[i:]
+		}
+		if len(tail) > 4000 {
+			tail = tail[:4000]
 		}
 		o.Tail = tail
 		start = p + 1
@@ -187,6 +211,14 @@ func Run(bin, entry, job, scratch string, inputs [][]byte, perInput time.Duratio
 		rf.Close()
 	}
 	return out, nil
+}
+
+func hasResult(path string, idx int) bool {
+	b, err := os.ReadFile(path)
+	if err != nil {
+		return false
+	}
+	return strings.Contains("\n"+string(b), fmt.Sprintf("\n%d\t", idx))
 }
 
 func readProgress(p string) int {
@@ -218,7 +250,11 @@ func funcName(line string) string {
 		case '(':
 			depth--
 			if depth == 0 {
-				return line[:i]
+				fn := line[:i]
+				if strings.ContainsAny(fn, " \t") || !strings.Contains(fn, ".") || (fn[0] >= '0' && fn[0] <= '9') {
+					return ""
+				}
+				return fn
 			}
 		}
 	}
@@ -247,9 +283,16 @@ func Classify(stderr string, hang bool) (kind, sig string) {
 	case strings.Contains(stderr, "signal: killed"):
 		kind = "killed"
 	}
-	// the running goroutine's stack
+	// the running goroutine's stack (for a hang: the goroutine that runs the handler)
 	body := stderr
-	if i := strings.Index(stderr, "[running]:"); i >= 0 {
+	if hang {
+		for _, blk := range strings.Split(stderr, "\n\n") {
+			if strings.Contains(blk, "isolate.call(") {
+				body = blk
+				break
+			}
+		}
+	} else if i := strings.Index(stderr, "[running]:"); i >= 0 {
 		body = stderr[i:]
 		if j := strings.Index(body, "\n\n"); j > 0 {
 			body = body[:j]
